@@ -524,7 +524,7 @@ package yang
 //@   loop 1
 //@     invariant forall j int :: 0 <= j && j < _k ==> mod.Import[j].Prefix.Name != prefix
 //
-//@ func (*Entry).Find props C17 C04
+//@ func (*Entry).Find props C17 C04 C01 C19
 //@   requires forall x *Entry :: ranked(x) && rootOK(x)
 //@   requires forall m *Module :: modOK(m)
 //@   requires forall x *Entry :: x != nil && x.Node != nil ==> rootOf(x.Node) != nil
